@@ -414,11 +414,114 @@ pub fn run_case(rep: &mut Report, case: &Case, verbose: bool) {
     let _ = replay;
 }
 
+/// A slave-only instance that lost its parent and is then made master-capable at run time: its
+/// ports become master through the announce receipt timeout and their very first Announces (before
+/// any BMCA run sees them in the master state) must advertise the instance itself as grandmaster.
+fn slave_only_takeover(rep: &mut Report, seed: u64) {
+    let replay = json!({"slave_only_takeover_seed": seed});
+    let mut rng = StdRng::seed_from_u64(seed);
+    let own_tp = TimePropertiesDS {
+        current_utc_offset: if rng.gen_bool(0.7) { Some([37i16, 0, -3][rng.gen_range(0..3)]) } else { None },
+        leap_indicator: [LeapIndicator::NoLeap, LeapIndicator::Leap59, LeapIndicator::Leap61][rng.gen_range(0..3)],
+        time_traceable: rng.gen(),
+        frequency_traceable: rng.gen(),
+        ptp_timescale: rng.gen(),
+        time_source: [TimeSource::Gnss, TimeSource::AtomicClock, TimeSource::InternalOscillator, TimeSource::Ntp][rng.gen_range(0..4)],
+    };
+    let n_ports = rng.gen_range(1..=3usize);
+    let mut b = Build::new(0x50);
+    b.n_ports = n_ports;
+    b.tp = own_tp;
+    b.slave_only = true;
+    b.clock_class = 255;
+    b.seed = seed;
+    let Ok(built) = b.build() else { return };
+    let mut node = built.node;
+    let mut parent = Remote::new(0x10, 1);
+    let (body, flags) = rand_parent_body(&mut rng, clock_id(0x10).0, 100);
+    parent.body = body;
+    parent.flags = flags;
+    if make_slave(&mut node, 0, &mut parent).is_err() || node.port_state(0) != PortState::Slave {
+        rep.ev("scenario_not_established");
+        return;
+    }
+    // how the parent is lost: it falls silent and ages out of the foreign master list over
+    // several BMCA runs, or the announce receipt timer fires first
+    let how = rng.gen_range(0..3);
+    if how != 1 {
+        for _ in 0..rng.gen_range(5..10) {
+            if node.bmca().is_err() {
+                return;
+            }
+        }
+    }
+    if how != 0 {
+        if node.call(0, Call::AnnounceReceiptTimer).is_err() || node.bmca().is_err() {
+            return;
+        }
+    }
+    if node.port_state(0) == PortState::Slave {
+        rep.ev("scenario_not_established");
+        return;
+    }
+    if node.set_slave_only(false).is_err() {
+        return;
+    }
+    if rng.gen_bool(0.5) && node.bmca().is_err() {
+        return;
+    }
+    let expected = View {
+        gm_id: clock_id(0x50).0,
+        p1: 128,
+        class: 255,
+        acc: 0xfe,
+        var: 0x8000 - 23 * 256,
+        p2: 128,
+        steps: 0,
+        utc: own_tp.current_utc_offset,
+        leap61: own_tp.leap_indicator == LeapIndicator::Leap61,
+        leap59: own_tp.leap_indicator == LeapIndicator::Leap59,
+        ptp_timescale: own_tp.ptp_timescale,
+        time_traceable: own_tp.time_traceable,
+        freq_traceable: own_tp.frequency_traceable,
+        time_source: own_tp.time_source.to_primitive(),
+        both_leaps: false,
+    };
+    for p in 0..n_ports {
+        if node.call(p, Call::AnnounceReceiptTimer).is_err() {
+            return;
+        }
+        if node.port_state(p) != PortState::Master {
+            continue;
+        }
+        let Ok(acts) = node.call(p, Call::AnnounceTimer) else { return };
+        for a in acts {
+            let Act::SendGeneral { data, .. } = a else { continue };
+            let Ok(m) = Msg::decode(&data) else { continue };
+            let Some(got) = view_of_announce(&m) else { continue };
+            rep.ev("announce_checked");
+            rep.ev("announce_checked_after_slave_only_instance_became_master_capable");
+            if got != expected {
+                rep.violation(
+                    "C11|grandmaster-after-slave-only|stale-view",
+                    &format!("formerly slave-only instance that lost its parent, first Announce of port {p} after set_slave_only(false): {got:?}, expected the own data {expected:?}"),
+                    replay.clone(),
+                );
+            }
+        }
+    }
+}
+
 pub fn run(rep: &mut Report, tier: &str, seed: u64, shard: (u32, u32), replay: Option<&str>) {
     rep.rule = "boundary clocks with 2-3 real ports: a scripted parent on port 0 whose Announce contents are redrawn at every step (all 2^6 time-properties flag combinations, utc offsets incl. i16 extremes, every timeSource octet, quality lattice, stepsRemoved 0..254), a better second master taking over, loss of all masters (grandmaster take-over) and local quality changes; after every step each master port's next Announce is decoded and compared with the shadow view; distinct = distinct cases; evaluations = cases".into();
-    rep.require(&["announce_checked", "announce_checked_grandmaster", "announce_checked_slave", "announce_checked_grandmaster-after-takeover", "parent_selected", "parent_changed", "takeover", "quality_changed"]);
+    rep.require(&["announce_checked", "announce_checked_grandmaster", "announce_checked_slave", "announce_checked_grandmaster-after-takeover", "parent_selected", "parent_changed", "takeover", "quality_changed", "announce_checked_after_slave_only_instance_became_master_capable"]);
     if let Some(path) = replay {
         let v: serde_json::Value = serde_json::from_str(&std::fs::read_to_string(path).unwrap()).unwrap();
+        if let Some(sd) = v["case"]["slave_only_takeover_seed"].as_u64() {
+            slave_only_takeover(rep, sd);
+            println!("replay: {} finding(s)", rep.findings.len());
+            return;
+        }
         match serde_json::from_value::<Case>(v["case"].clone()) {
             Ok(c) => run_case(rep, &c, true),
             Err(e) => println!("cannot parse replay: {e}"),
@@ -442,6 +545,9 @@ pub fn run(rep: &mut Report, tier: &str, seed: u64, shard: (u32, u32), replay: O
         run_case(rep, &case, false);
         rep.distinct_case(&format!("{case:?}"));
         rep.evaluations += 1;
+        if i % 8 == 0 {
+            slave_only_takeover(rep, rng.gen());
+        }
     }
     let ne = rep.events.get("scenario_not_established").copied().unwrap_or(0);
     if ne * 5 > rep.evaluations {
